@@ -61,6 +61,36 @@ def api_readback(ctx, c, expected):
                 h = ((h ^ b) * 1099511628211) & 0xFFFFFFFFFFFFFFFF
             if len(data) != a['len'] or str(h) != a['hash']:
                 problems.append(('api-read-differs', '%s %s: %d bytes' % (key, p, len(data))))
+        # the Rock Ridge tree through the library's own lookups: every directory lists exactly its children, every entry
+        # resolves to a record of the right kind (relocated directories included)
+        rr_children = {}
+        for (ns, kind, path), a in exp.items():
+            if ns == 'R' and path.strip('/'):
+                rr_children.setdefault(path.rsplit('/', 1)[0], set()).add(path.rsplit('/', 1)[1])
+        for (ns, kind, path), a in sorted(exp.items()):
+            if ns != 'R' or kind not in ('D', 'F', 'L'):
+                continue
+            try:
+                p = '/' + '/'.join(bytes.fromhex(x).decode('utf-8') for x in path.split('/') if x)
+            except UnicodeDecodeError:
+                continue
+            try:
+                rec = iso2.get_record(rr_path=p)
+            except Exception as e:  # noqa
+                problems.append(('api-rr-lookup-fails', 'rr_path %s: %s' % (p[:80], isoapi.exc_class(e))))
+                continue
+            if rec.is_dir() != (kind == 'D'):
+                problems.append(('api-rr-kind', 'rr_path %s resolves to a %s, the edits made a %s' % (p[:80], 'directory' if rec.is_dir() else 'non-directory', kind)))
+                continue
+            if kind == 'D' and path.strip('/') != histcheck.RR_MOVED_RR_HEX:
+                try:
+                    got = {c.rock_ridge.name().hex() for c in iso2.list_children(rr_path=p) if c is not None and not c.is_dot() and not c.is_dotdot()}
+                except Exception as e:  # noqa
+                    problems.append(('api-rr-list-fails', 'list_children(rr_path=%s): %s' % (p[:80], isoapi.exc_class(e))))
+                    continue
+                want = rr_children.get(path, set())
+                if got != want:
+                    problems.append(('api-rr-children', 'rr_path %s lists %d children, the edits imply %d' % (p[:80], len(got), len(want))))
         # nothing else appears: every path the history mentions and the specification no longer holds must be gone,
         # both for the object that was edited and for the reopened image
         have = {(ns, path) for (ns, kind, path) in exp}
